@@ -94,7 +94,11 @@ Raise(st, v) ==
          IF pm.w = "pmark"
          THEN [st EXCEPT !.kont = SubSeq(@, 1, p - 1),
                          !.vals = Append(SubSeq(@, 1, pm.vh), Adjust(<<False, v>>, pm.m))]
-         ELSE IF pm.inh THEN Unmod(st, "error in error handler")
+         ELSE IF pm.inh
+         THEN \* the message handler itself failed: xpcall still returns false; which error value
+              \* it reports (5.1: "error in error handling", others: the handler's error) is not judged
+              [st EXCEPT !.kont = SubSeq(@, 1, p - 1),
+                         !.vals = Append(SubSeq(@, 1, pm.vh), Adjust(<<False, <<"any">>>>, pm.m))]
          ELSE \* xpcall: the handler runs first, on top of the failing continuation
               [st EXCEPT !.kont = Append(Append([@ EXCEPT ![p].inh = TRUE],
                                                 [w |-> "unwind", p |-> p]), CallItem(FALSE, NoPos)),
@@ -556,6 +560,7 @@ Builtin(N, st, name, a, multi, ln) ==
       [] name = "gpanic" ->    \* Go panic inside a host function: reaches pcall as the panic text
            (IF a1[1] # "s" THEN Fault(st, ln) ELSE Raise(st, a1))
       [] name = "snap" -> RetV(st, <<>>, multi)      \* harness snapshot: no effect on the semantics
+      [] name = "gcancel" -> RetV(st, <<>>, multi)   \* the host cancels the context: the uncancelled semantics just goes on
       [] name = "dbg.getinfo" ->
            (* fields judged by C17: currentline, linedefined, lastlinedefined *)
            (LET MkInfo(cur, fnref) ==
@@ -750,7 +755,9 @@ Step(N, st) ==
                 r == NearestIdx(K0, IsRet)  mk == K0[r] IN
             IF r = 1 /\ st.cur = 0     \* tail call out of the main chunk: keep the chunk marker
             THEN [s0 EXCEPT !.kont = Append(Append(K0, [w |-> "doreturn"]), CallItem(TRUE, it.ln))]
-            ELSE [s0 EXCEPT !.kont = Append(SubSeq(K0, 1, r - 1), CallItem(mk.m, it.ln)),
+            ELSE \* the caller's frame is gone: what "the calling statement" of the callee is
+                 \* (error level 2, getinfo level 2) is not defined by the manual -> no position
+                 [s0 EXCEPT !.kont = Append(SubSeq(K0, 1, r - 1), CallItem(mk.m, NoPos)),
                             !.vals = Append(Append(SubSeq(V, 1, mk.vh), f), args)])
       [] it.w = "ret" ->       \* the body fell off its end
            [s0 EXCEPT !.vals = Append(SubSeq(V, 1, it.vh), Adjust(<<>>, it.m))]
@@ -815,7 +822,7 @@ Step(N, st) ==
 (* ---- initial state ------------------------------------------------------------------------------- *)
 GlobalNames == <<"emit", "type", "tostring", "tonumber", "select", "unpack", "rawget", "rawset", "rawequal",
                  "next", "pairs", "ipairs", "setmetatable", "getmetatable", "pcall", "xpcall", "error", "assert",
-                 "getfenv", "setfenv", "newproxy", "gret", "gcall", "gerr", "gpanic", "snap">>
+                 "getfenv", "setfenv", "newproxy", "gret", "gcall", "gerr", "gpanic", "snap", "gcancel">>
 CoNames == <<"create", "resume", "yield", "status", "wrap", "running">>
 DbgNames == <<"getinfo", "getlocal", "setlocal", "getupvalue", "setupvalue">>
 StrNames == <<"sub", "len", "byte", "rep">>
